@@ -989,7 +989,40 @@ class ModuleInliner:
         for nm in cand:
             self.log.append(f"constant {self.modname}:{nm} written out")
 
+    def _renest_moved(self):
+        """A nested helper of the reference tree that now lives at module level under the same name ("hoist nested function") is put back
+        into the function that used to own it (a copy at the top of its body); the module-level definition goes if nothing else uses it."""
+        cur = {d.qual: d for d in self.defs}
+        moved = False
+        for q in sorted(self.known):
+            if not q.startswith(self.modname + ":") or ".<locals>." not in q or q in cur:
+                continue
+            outer_q, name = q.rsplit(".<locals>.", 1)
+            outer = cur.get(outer_q)
+            cand = [d for d in self.new if d.kind == "module" and d.node.name == name]
+            if outer is None or len(cand) != 1:
+                continue
+            g = cand[0]
+            if g.node.decorator_list or any(isinstance(n, ast.Name) and n.id == outer.node.name for n in ast.walk(g.node)):
+                continue
+            # the outer function must still call it by that plain name
+            if not any(isinstance(n, ast.Call) and isinstance(n.func, ast.Name) and n.func.id == name for n in ast.walk(outer.node)):
+                continue
+            body = outer.node.body
+            pos = 1 if (body and isinstance(body[0], ast.Expr) and isinstance(body[0].value, ast.Constant) and isinstance(body[0].value.value, str)) else 0
+            body.insert(pos, copy.deepcopy(g.node))
+            self.log.append(f"re-nested {g.qual} into {outer_q}")
+            others = sum(1 for n in ast.walk(self.tree) if isinstance(n, ast.Name) and n.id == name and isinstance(n.ctx, ast.Load)
+                         and not any(n is x for x in ast.walk(outer.node)) and not any(n is x for x in ast.walk(g.node)))
+            if not others and g.node in g.container:
+                g.container.remove(g.node)
+            moved = True
+        if moved:
+            self.defs = enumerate_defs(self.modname, self.tree)
+            self.new = [d for d in self.defs if d.qual not in self.known]
+
     def run(self) -> ast.Module:
+        self._renest_moved()
         self._inline_new_constants()
         if not self.new:
             return self.tree
